@@ -168,9 +168,9 @@ def _pair(mds_c=1200, mds_s=1200, cid_len=8, cipher=None):
     from aioquic.quic.connection import QuicConnection
     from aioquic import tls
     repo = os.environ.get("VERIF_REPO", "/repo")
-    cc = QuicConfiguration(is_client=True, max_datagram_size=mds_c, connection_id_length=cid_len)
+    cc = QuicConfiguration(is_client=True, max_datagram_size=mds_c, connection_id_length=cid_len, max_datagram_frame_size=65536)
     cc.verify_mode = 0  # ssl.CERT_NONE
-    sc = QuicConfiguration(is_client=False, max_datagram_size=mds_s, connection_id_length=cid_len)
+    sc = QuicConfiguration(is_client=False, max_datagram_size=mds_s, connection_id_length=cid_len, max_datagram_frame_size=65536)
     sc.load_cert_chain(os.path.join(repo, "tests", "ssl_cert.pem"), os.path.join(repo, "tests", "ssl_key.pem"))
     if cipher:
         cs = {"aes-128": tls.CipherSuite.AES_128_GCM_SHA256, "aes-256": tls.CipherSuite.AES_256_GCM_SHA384,
@@ -478,6 +478,9 @@ class Runner:
 
     def close(self):
         self._stop()
+        for r in getattr(self, "pool", None) or []:
+            r.close()
+        self.pool = None
 
     def prefetch(self, cases, workers=4):
         """run many cases on a pool of children of the same build; results land in this runner's cache"""
@@ -485,7 +488,10 @@ class Runner:
         todo = [c for c in cases if json.dumps(c, sort_keys=True) not in self.cache]
         if len(todo) < 50:
             return
-        pool = [Runner(self.build, self.trace) for _ in range(workers)]
+        if not getattr(self, "pool", None):
+            self.pool = [Runner(self.build, self.trace) for _ in range(workers)]
+        pool = self.pool
+        workers = len(pool)
 
         def work(i):
             for c in todo[i::workers]:
@@ -499,7 +505,7 @@ class Runner:
             self.cache.update(r.cache)
             self.runs += r.runs
             self.crashes += r.crashes
-            r.close()
+            r.runs = r.crashes = 0
 
     def run(self, case, timeout=120):
         key = json.dumps(case, sort_keys=True)
@@ -527,13 +533,24 @@ class Runner:
                 rc = "timeout"
             txt = ""
             try:
-                txt = open(self.errpath, errors="replace").read()[-6000:]
+                txt = open(self.errpath, errors="replace").read()[-200000:]
             except Exception:
                 pass
             tail = txt[txt.rfind("C04_CASE"):] if "C04_CASE" in txt else txt
-            res = {"crash": True, "rc": rc, "report": summarise_report(tail), "err": tail[-3000:]}
+            rep = summarise_report(tail)
+            rep["rc"] = rc
+            res = {"crash": True, "rc": rc, "report": rep, "err": tail[:1500] + "\n...\n" + tail[-1500:]}
             self.crashes += 1
             self._stop()
+            if not (set(rep) & {"asan", "ubsan"}) and not getattr(self, "_retrying", False):
+                # the child died without a sanitizer / signal report: retry once in a fresh child
+                self._retrying = True
+                try:
+                    self.cache.pop(key, None)
+                    res2 = self.run(case, timeout)
+                finally:
+                    self._retrying = False
+                return res2
         self.cache[key] = res
         return res
 
@@ -801,8 +818,8 @@ class CallSuite:
                 return self._once(sig, "Buffer constructor: assertion %s violated (negative size / unchecked malloc)" % bounds[0])
             # run a few of the predicted-out-of-bounds calls under the sanitizers as confirmation
             k = bounds[0]
-            if self.asan_oob_budget.get(k, 0) < 2:
-                self.asan_oob_budget[k] = self.asan_oob_budget.get(k, 0) + 1
+            if self.asan_oob_budget.get(fn, 0) < 1:
+                self.asan_oob_budget[fn] = 1
                 a = self.asan.run(dict(case, kind="call"))
                 self.unenforced[k] = dict(case, asan=a.get("report") if a.get("crash") else "silent (intra-object or unused padding)")
             return None
@@ -1292,7 +1309,7 @@ def gen_conn_cases(ctx):
     cs.append({"kind": "conn", "scenario": "recv_initial", "params": {"shapes": [x for x in shapes if x[0] > 1440]}})
     for m in MDS_LIST:
         cs.append({"kind": "conn", "scenario": "pair_mds", "params": {"mds_c": m, "mds_s": m, "bytes": 3 * m + 500, "datagram": [m - 60, m - 40, m - 30]}})
-    for m in (1501, 1517, 1530, 1540, 2000):
+    for m in ((1501, 1517, 1530, 1540, 2000) if ctx.thorough else (1501, 1517)):
         cs.append({"kind": "conn", "scenario": "pair_mds", "params": {"mds_c": 1200, "mds_s": m, "bytes": 3 * m}})
         cs.append({"kind": "conn", "scenario": "pair_mds", "params": {"mds_c": m, "mds_s": 1200, "bytes": 3 * m, "cipher": "chacha20"}})
     return cs
@@ -1391,6 +1408,8 @@ def run(ctx):
         extra["vcs_refuted_becoming_contract_clauses"] = refuted
         extra["build_s"] = {"checked": round(chk_b.build_s, 1), "asan": round(asan_b.build_s, 1)}
 
+        phases = {"setup": round(time.time() - t0, 1)}
+        tp = time.time()
         # ---- A: direct calls, model <-> checked build (trace + outcome), sanitizer agreement
         cs = CallSuite(ctx, mi, chk, asan)
         cs.suite.__class__ = FilteredSuite
@@ -1402,6 +1421,8 @@ def run(ctx):
         cs.suite.run(call_cases)
         extra["function_level_contract_violations"] = {k: _short(v) for k, v in sorted(cs.unenforced.items())}
 
+        phases["calls"] = round(time.time() - tp, 1)
+        tp = time.time()
         # ---- B: Buffer method sequences
         bs = BufSuite(ctx, mi, chk, asan)
         bcases = corr.load_corpus("C04", "c04-buffer-seq") + gen_buf_exhaustive(ctx.thorough)
@@ -1410,35 +1431,44 @@ def run(ctx):
         asan.prefetch([dict(c, kind="bufseq") for c in bcases], w)
         bs.suite.run(bcases)
 
+        phases["buffer"] = round(time.time() - tp, 1)
+        tp = time.time()
         # ---- C: real connections: network datagrams, max_datagram_size settings
         conn_stats = {"scenarios": 0, "datagrams_injected": 0, "pairs": 0, "findings": 0, "notes": []}
         seen = set()
         for case in [dict(c, kind="conn") for c in corr.load_corpus("C04", "c04-conn")] + gen_conn_cases(ctx):
             conn_stats["scenarios"] += 1
-            results = []
-            for which, rn in (("checked", chk.quiet), ("sanitizer", asan)):
-                r = rn.run(case, timeout=300)
-                # after a crash inside a batch, continue the batch behind the crashing datagram
-                results.append((which, r))
-                if not r.get("crash"):
-                    conn_stats["datagrams_injected"] += r.get("n", 0)
+            # checked build first; the sanitizer build runs the scenario only when no assertion fired
+            # (an aborting sanitizer child costs a restart), and confirms each minimised finding once
+            r = chk.quiet.run(case, timeout=300)
+            results = [("checked", r)]
+            found = conn_findings(case, results)
+            if not found:
+                ra = asan.run(case, timeout=300)
+                results.append(("sanitizer", ra))
+                found = conn_findings(case, results)
+            if not r.get("crash"):
+                conn_stats["datagrams_injected"] += r.get("n", 0)
             if case["scenario"] == "pair_mds":
                 conn_stats["pairs"] += 1
-                r0 = results[0][1]
-                if not r0.get("crash"):
-                    conn_stats["notes"].append({"mds": case["params"], "handshake": r0.get("handshake"), "delivered": r0.get("delivered"),
-                                                "max_sent": r0.get("max_sent"), "exceptions": r0.get("notes")})
-            for what, sig, detail in conn_findings(case, results):
+                if not r.get("crash"):
+                    conn_stats["notes"].append({"mds": case["params"], "handshake": r.get("handshake"), "delivered": r.get("delivered"),
+                                                "max_sent": r.get("max_sent"), "exceptions": r.get("notes")})
+            for what, sig, detail in found:
                 conn_stats["findings"] += 1
                 k = json.dumps({"site": sig.get("site"), "via": sig.get("via"), "rw": sig.get("rw")}, sort_keys=True)
                 if k in seen:
                     continue
                 seen.add(k)
                 small = minimise_conn(case, sig, chk.quiet, asan)
+                conf = asan.run(small, timeout=300)
+                confirm = conf.get("report") if conf.get("crash") else "sanitizers silent (overflow stays inside the Python object / allocation slack)"
                 ctx.violation("impl-violation", "c04-conn: " + what, _short(small, 3000),
                               signature={"site": sig.get("site"), "via": sig.get("via"), "rw": sig.get("rw")},
-                              extra={"detail": detail})
+                              extra={"detail": detail, "sanitizer_on_minimised_case": confirm})
+        phases["connections"] = round(time.time() - tp, 1)
         extra["connections"] = conn_stats
+        extra["phase_wall_s"] = phases
         extra["runner"] = {"checked_runs": chk.runs, "asan_runs": asan.runs, "asan_crashes": asan.crashes, "checked_crashes": chk.crashes}
         cov = corr.merge_coverage(
             [cs.suite, bs.suite],
@@ -1470,9 +1500,23 @@ def minimise_conn(case, sig, chk, asan):
     if not key:
         return case
     items = p[key]
-    for it in items:
+    import re
+    want = None
+    dets = (("checked", chk),) if sig.get("detector") == "assertion" else (("sanitizer", asan),)
+    for which, rn in dets:
+        r = rn.run(case, timeout=300)
+        for f in conn_findings(case, [(which, r)]):
+            if f[1].get("site") == sig.get("site") and f[1].get("rw") == sig.get("rw"):
+                step = (f[2] or {}).get("step") or ""
+                m = re.search(r"T=(\d+) R=(\d+)", step)
+                if m:
+                    want = [x for x in items if x[0] == int(m.group(1)) and x[1] == int(m.group(2))]
+                m = re.search(r"^len=(\d+)", step)
+                if m:
+                    want = [x for x in items if (x if isinstance(x, int) else x.get("n")) == int(m.group(1))]
+    for it in (want or items)[:12]:
         c1 = dict(case, params=dict(p, **{key: [it]}))
-        for which, rn in (("checked", chk), ("sanitizer", asan)):
+        for which, rn in dets:
             r = rn.run(c1, timeout=120)
             f = conn_findings(c1, [(which, r)])
             if any(x[1].get("site") == sig.get("site") and x[1].get("rw") == sig.get("rw") for x in f):
